@@ -555,11 +555,11 @@ class DatasetProcessor:
             if os.path.exists(saves_file + "_lock"):
                 os.remove(saves_file + "_lock")
             clean_locks(self.get_chr_list(), saves_file, reads_collected_lock_file_name)
-            for f in glob.glob(saves_file + "_*"):
+            for f in glob.glob(glob.escape(saves_file) + "_*"):
                 os.remove(f)
             if os.path.exists(read_group_lock_filename(sample)):
                 os.remove(read_group_lock_filename(sample))
-            for f in glob.glob(sample.read_group_file + "*"):
+            for f in glob.glob(glob.escape(sample.read_group_file) + "*"):
                 os.remove(f)
         logger.info("Processed experiment " + sample.prefix)
 
